@@ -38,7 +38,7 @@ RULE = ("messages: every template (quick 3, thorough 24 per template per zone), 
         "shape) pairs and distinct (message, block-count vector) pairs that round-tripped"
         ". Round-5 addition: every third case is repeated through a second LLSDMessageSerializer built on a caller-supplied template (other wire types), living next to the stock one, then the stock one again"
         ". Rounds 6-7: a long-lived serializer whose template dictionary is reloaded in place with a revised template, compared with a fresh one; LLSD codecs and the message serializer from four threads; stock-dictionary fingerprint"
-        ". Round 8: EventQueueManager.inject_message with Message objects that are edited or injected again before the poll, plain events in between - one event per injection, in order, converting back to the message as injected")
+        ". Round 8: EventQueueManager.inject_message with Message objects that are edited or injected again before the poll, plain events in between - one event per injection, in order, converting back to the message as injected. Round 11: every xml / binary / notation document - and a few leaves as documents of their own, among them ones that end in a whitespace byte - also through the content-sniffing llsd.parse()")
 ASSUMPTIONS = [
     "LLSD has no vector type: the library's vector types compare as their component arrays",
     "naive datetimes follow the LLSD convention (UTC); dates compare as instants; dates are drawn from 1970..2100",
@@ -48,7 +48,7 @@ ASSUMPTIONS = [
     "date microseconds are restricted to values llbase's text date parser does not truncate (int(float('0.x')*1e6), "
     "third-party code)",
 ]
-MUST_REACH = {"eq_events_converted_back": 40, "eq_messages_edited_between_injection_and_poll": 5, "msg_roundtrips_after_template_reload": 50, "calls_from_concurrent_threads": 1000, "msg_roundtrips_custom_template": 300, "msg_dict_roundtrips": 400, "msg_xml_roundtrips": 400, "templates_covered": 481, "tree_roundtrips": 2000,
+MUST_REACH = {"documents_sniffed_that_end_in_a_whitespace_byte": 100, "eq_events_converted_back": 40, "eq_messages_edited_between_injection_and_poll": 5, "msg_roundtrips_after_template_reload": 50, "calls_from_concurrent_threads": 1000, "msg_roundtrips_custom_template": 300, "msg_dict_roundtrips": 400, "msg_xml_roundtrips": 400, "templates_covered": 481, "tree_roundtrips": 2000,
               "codec_binary": 300, "codec_binary_noheader": 300, "codec_zipped": 300, "codec_notation": 300, "codec_xml": 300,
               "dates_checked": 100, "aware_dates_checked": 20, "uris_checked": 50, "newline_strings_checked": 50,
               "quaternion_messages": 5, "tz_covered": 3, "u64_messages": 10, "ip_messages": 5}
@@ -307,6 +307,33 @@ def check_tree(ctx, tree, seed_info):
             ctx.violation(f"tree-differs:{name}:" + ",".join(kinds[:3]), "an LLSD value came back different",
                           dict(wit, diffs=diffs[:5], data=data[:200]))
             continue
+        # Round 11: the same document through the content-sniffing entry point (what the HTTP side and
+        # LLSDMessageSerializer.deserialize(bytes) use) - for the whole tree and for a few of its leaves as documents of their own
+        if name in ("binary", "xml", "notation"):
+            docs = [(tree, data)]
+            for leaf in _leaves(tree)[:4]:
+                try:
+                    docs.append((leaf, fmt(leaf)))
+                except Exception:
+                    continue
+            for sub, doc in docs:
+                ctx.count("documents_sniffed")
+                if doc[-1:] in b" \t\r\n\x0b\x0c":
+                    ctx.count("documents_sniffed_that_end_in_a_whitespace_byte")
+                try:
+                    direct = tagged(parse(doc))
+                except Exception:
+                    continue        # (judged above for the whole tree; a leaf the specific parser refuses is not this check's business)
+                try:
+                    sniffed = tagged(llsd.parse(doc))
+                except Exception as e:
+                    ctx.violation(f"sniffing-parse-raises:{name}", "llsd.parse() refuses a document the format's own parser reads",
+                                  dict(wit, document=doc[:200], value=repr(sub)[:200], exc=repr(e)[:200]))
+                    break
+                if sniffed != direct:
+                    ctx.violation(f"sniffing-parse-differs:{name}", "llsd.parse() reads a document differently from the format's own parser",
+                                  dict(wit, document=doc[:200], value=repr(sub)[:200]))
+                    break
         ctx.count("tree_roundtrips")
         ctx.count("codec_" + name)
         ctx.nontrivial((name, shape(want)))
@@ -318,6 +345,14 @@ def check_tree(ctx, tree, seed_info):
         ctx.count("uris_checked")
     if has_newline_string(want):
         ctx.count("newline_strings_checked")
+
+
+def _leaves(v):
+    if isinstance(v, dict):
+        return [x for c in v.values() for x in _leaves(c)]
+    if isinstance(v, (list, tuple)):
+        return [x for c in v for x in _leaves(c)]
+    return [v]
 
 
 def _date_tag(tree, aware):
